@@ -331,6 +331,8 @@ class DFXPWriter(BaseWriter):
 
         :rtype: str
         """
+        # a span left open by an earlier write() must not leak into this one
+        self.open_span = False
         dfxp = BeautifulSoup(DFXP_BASE_MARKUP, 'lxml-xml')
 
         langs = caption_set.get_languages()
